@@ -288,11 +288,16 @@ def query_classes(pop, q):
         for f in idf:
             if f["op"] in ("=", "in") and allowed and usual(f):
                 for v in ([f["value"]] if f["op"] == "=" else f["value"]):
-                    if any(v.split("--")[0] not in a for a in allowed):
+                    if isinstance(v, str) and any(v.split("--")[0] not in a for a in allowed):
                         cl.add("id-contradicts-type-filter")
     types = {o["type"] for o in pop}
     for f in tf + idf:
         vals = f["value"] if isinstance(f["value"], list) else [f["value"]]
+        if any(not isinstance(v, str) for v in vals):
+            cl.add("type-or-id:non-text-member")
+        vals = [v for v in vals if isinstance(v, str)]
+        if any(v in ("..", ".") or "/" in v for v in vals):
+            cl.add("type-or-id:path-like-text")
         if f["op"] in ("=", "in", "!=") and any(v.split("--")[0] not in types for v in vals):
             cl.add("type-or-id-of-absent-type")
         if f["op"] == "in" and not vals:
